@@ -90,6 +90,24 @@ def _client_hello(pattern):
     return make
 
 
+def _ssh_certificate(part):
+    """An ssh-ed25519 v01 certificate of about `size` bytes whose `part` (extensions, critical options, principals) holds
+    very many pairwise different entries - what a CA that stamps vendor options produces."""
+    from vmon.ref import ssh as ref  # pylint: disable=import-outside-toplevel
+
+    def make(size):
+        count = max(1, size // 6)      # entries are ~30 bytes each: as many of them as the text shapes have terms
+        names = ['opt%06d@example.com' % number for number in range(count)]        # ascending, pairwise different
+        options = [ref.option(name, b'') for name in names]
+        principals = ['host%06d.example.com' % number for number in range(count)] if part == 'principals' else ['host.example.com']
+        signer = ref.key_blob('ssh-ed25519', ref.key_fields_ed25519(b'\x07' * 32))
+        return ref.certificate_v01(
+            'ssh-ed25519-cert-v01@openssh.com', b'\x01' * 32, ref.key_fields_ed25519(b'\x05' * 32), 1, 2, 'key-id', principals, 0,
+            2 ** 32, options if part == 'critical-options' else [], options if part == 'extensions' else [], b'', signer,
+            ref.signature_blob('ssh-ed25519', b'\x09' * 64))
+    return make
+
+
 SPF = 'cryptoparser.dnsrec.txt:DnsRecordTxtValueSpf'
 EXPLICIT_SHAPES = [(SPF, 'spf-' + term.decode('ascii').split(':')[0].split('=')[0] + ('-cidr' if b'/' in term else ''), _spf(term))
                    for term in (b'a:example.com', b'mx:example.com', b'a', b'mx', b'a:example.com/24', b'mx/24//64',
@@ -118,6 +136,9 @@ EXPLICIT_SHAPES = [(SPF, 'spf-' + term.decode('ascii').split(':')[0].split('=')[
     ('cryptoparser.dnsrec.record:DnsRecordTxt', 'txt-strings', _txt_strings),
     ('cryptoparser.dnsrec.record:DnsRecordMx', 'mx-many-labels', _mx_labels),
     ('cryptoparser.ssh.subprotocol:SshKeyExchangeInit', 'kexinit-language-subtags', _kexinit_languages),
+    ('cryptoparser.ssh.key:SshHostCertificateV01EDDSA', 'ssh-cert-extensions', _ssh_certificate('extensions')),
+    ('cryptoparser.ssh.key:SshHostCertificateV01EDDSA', 'ssh-cert-critical-options', _ssh_certificate('critical-options')),
+    ('cryptoparser.ssh.key:SshHostCertificateV01EDDSA', 'ssh-cert-principals', _ssh_certificate('principals')),
     ('cryptoparser.httpx.header:HttpHeaderFields', 'unknown-header-lines', _header_block(b'X-Unknown-Header: value\r\n')),
     ('cryptoparser.httpx.header:HttpHeaderFields', 'known-header-lines', _header_block(b'Strict-Transport-Security: max-age=1\r\n')),
     ('cryptoparser.httpx.header:HttpHeaderFields', 'cookie-header-lines', _header_block(b'Set-Cookie: a=b; Path=/; Secure\r\n')),
@@ -342,9 +363,8 @@ class Check(core.CheckBase):
 
     def judge_growth_explicit(self, case):
         cls_name, label, make = EXPLICIT_SHAPES[case['number']]
-        cls = self.classes.get(cls_name)
-        if cls is None:
-            return []
+        cls = self.classes.get(cls_name) or inventory.resolve(cls_name)
+        self.stats['explicit_shapes_measured'] += 1
         return self.measure_series(cls, make, dict(case, cls=cls_name), 'explicit:' + label)
 
     def judge_growth_vector(self, case):
